@@ -137,7 +137,9 @@ def path_cases(tier, rng):
         sh = rng.choice([0, 0, 0, 8, 97, -3, -11, -1000, 2 ** 55])      # ids whose decimal strings have mixed lengths / signs, beyond float precision
         if sh:
             ops = [[o[0], o[1], o[2], o[3] + sh, None if o[4] is None else o[4] + sh] for o in ops]
-        yield hist_case(d, True, ops, ids=("str", "ustr", "int", "int", "int")[i % 5], src="rand")
+        # one case in seven on a graph created with edge_removal=False: presence is then the accumulative one (C08) and the
+        # path functions must follow it (they go through neighbors(node, t) / the snapshot ids, never through raw spans)
+        yield hist_case(d, i % 7 != 3, ops, ids=("str", "ustr", "int", "int", "int")[i % 5], src="rand" if i % 7 != 3 else "rand-accumulative")
 
 
 def queries(case, rng):
@@ -201,7 +203,7 @@ class PathsBase:
 
     @staticmethod
     def lines(case):
-        L = [gen.header(0, case["cls"], 1)]
+        L = [gen.header(0, case["cls"], case.get("rem", 1))]
         lo, hi = gen.window(case["ops"], 1)
         L += [gen.op_line(0, op) for op in case["ops"]]
         L += ["dump 0", "pres 0 %d %d" % (lo, hi)]
